@@ -31,12 +31,12 @@ prop("C08", "model_checking",
      "Bounded states (<=3 offered entries, plus a 7..9-entry family); ranges inside the document's namespace; the reference backend is the definition (ascending identifier order), as in the crate's own test stand-in.")
 prop("C09", "exploration",
      "exhaustive enumeration: every frame of real session transcripts under every two-way (and small three-way) chunking and every truncation; every decoder on all byte strings up to 2/3 bytes and on every single-byte replacement of valid encodings, decoded values exercised on the real code; pinned encodings against an independent hand-written layout encoder",
-     "All distinct session transcripts between small reachable states are encoded with the crate's codec and decoded under every split point, truncation and oversized length prefix, including encoding several frames into one buffer; frame, entry, message, heads, ticket, capability, filter, policy decoders and the hex text form of the secret-key, public-key and id types are fed every short byte string and every single-byte corruption of valid encodings under catch_unwind, and whatever decodes is pushed through accessors, signature verification and a real replica; signed-entry, author and namespace encodings are pinned.",
+     "All distinct session transcripts between small reachable states are encoded with the crate's codec and decoded under every split point, truncation and oversized length prefix, including encoding several frames into one buffer, the decoder's end-of-stream entry point on every truncation, and a differential against frame-by-frame decoding of the declared frames for every altered length prefix and payload byte; frame, entry, message, heads, ticket, capability, filter, policy decoders and the hex text form of the secret-key, public-key and id types are fed every short byte string and every single-byte corruption of valid encodings under catch_unwind, and whatever decodes is pushed through accessors, signature verification and a real replica; signed-entry, author and namespace encodings are pinned.",
      "'Arbitrary bytes' is replaced by its exhaustive small-scope counterpart; quick tier uses a 4-value subset beyond the first 48 bytes of each encoding.")
 prop("C10", "fault_enumeration",
-     "exhaustive enumeration of peer scripts (every sequence of <=3 (quick) / <=5 (thorough) steps over a menu of correct and hostile frames) against the real acceptor and the real initiator over in-memory streams, plus every placement of one local fault (close / disable sync / actor shutdown) before each protocol step of real-vs-real sessions",
-     "BobState::run and run_alice are driven over duplex streams by a scripted peer that owns a real replica (so 'correct next frame' is always available) and deviates at every step in every way of the menu; a frame relay injects one local fault before every incoming frame on either side. Both ends must return within the deadline without panic, into_outcome() must be callable after every outcome, a declined request leaves the store unchanged, and counters mirror on success.",
-     "In-memory duplex transport; deadlines only as hang detectors with a 10x re-run.")
+     "exhaustive enumeration of peer scripts (every sequence of <=3 (quick) / <=5 (thorough) steps over a menu of correct and hostile frames) against the real acceptor and the real initiator over in-memory streams, plus every placement of one local fault (close / disable sync / actor shutdown) or one stream cut inside a frame before each protocol step of real-vs-real sessions, plus the exported transport entry points over loopback QUIC under every accept answer x local fault and against scripted hostile peers",
+     "BobState::run and run_alice are driven over duplex streams by a scripted peer that owns a real replica (so 'correct next frame' is always available) and deviates at every step in every way of the menu; a frame relay injects one local fault before every incoming frame on either side. Both ends must return within the deadline without panic, into_outcome() must be callable after every outcome, a declined request leaves the store unchanged, and counters mirror on success. The relay also ends a stream in the middle of every frame (the cut side must fail). Family D runs the exported connect_and_sync against handle_connection over real QUIC on loopback for every accept answer x every local fault before the session; family E faces each of them with a scripted hostile QUIC peer (connection closed before / after opening the stream, abrupt close after a correct frame, garbage frame, correct request and nothing more, unknown document / Abort).",
+     "In-memory duplex transport for families A-C, loopback QUIC (two real endpoints per scenario) for D and E; deadlines only as hang detectors with a 10x re-run.")
 prop("C11", "model_checking",
      "explicit-state breadth-first search over the real coordination handlers of two LiveActors (dial decisions, request delivery/loss, accept/decline, independent completion of both session ends, captured resync dials), canonical state from the implementation's coordination snapshot plus in-flight dials, invariants S1-S5 on every state",
      "Two real LiveActors (never run) are driven through sync_with_peer, accept_sync_request and the two completion handlers with synthetic session results; every interleaving of up to 3 (quick) / 4 (thorough) dials is explored; at most one session in progress, crossing dials resolve to exactly one accepted, a refused sync report yields exactly one follow-up at the end of the running session, every quiescent state is Idle on both nodes, unsynced documents are declined NotFound; the search is repeated with one node leaving the document, with a content download of the document queued at both nodes, and with triggers and requests delivered as actor messages (neighbour up, a neighbour's sync report carrying news, accept request with its reply channel) through on_actor_message.",
@@ -47,7 +47,7 @@ prop("C12", "model_checking",
      "Bounded depth; events compared after the acknowledging reply.")
 prop("C13", "model_checking",
      "exhaustive enumeration of all operation sequences up to a depth (inserts of a two-author universe, document removal and re-creation) on the real store against reference heads, plus exhaustive enumeration of small author-head sets x all size limits for the codec",
-     "Heads and has_news_for_us are compared with the reference replica after every history of <=3 (quick) / <=4 (thorough) steps for all 16 peer reports; AuthorHeads::encode/decode is checked on all 4166 head sets of <=4 authors over 7 varint-edge timestamps (ties included) under every size limit; the head set as a data structure (insert keeps the maximum, merge, has_news_for) on every sequence of <=4 inserts and every split; a neighbour's sync report delivered to a real idle LiveActor leads to a dial exactly when it is news for the document as held.",
+     "Heads and has_news_for_us are compared with the reference replica after every history of <=3 (quick) / <=4 (thorough) steps (inserts, removal and re-creation, and the question itself as an event) for all 25 peer reports; AuthorHeads::encode/decode is checked on all 4166 head sets of <=4 authors over 7 varint-edge timestamps (ties included) under every size limit; the head set as a data structure (insert keeps the maximum, merge, has_news_for) on every sequence of <=4 inserts and every split; a neighbour's sync report delivered to a real idle LiveActor leads to a dial exactly when it is news for the document as held.",
      "Bounded depth/alphabet; limit 0 excluded (unsatisfiable); any key attaining the maximum is accepted as the head's key.")
 prop("C03", "exploration",
      "exhaustive enumeration of a single-fault tamper alphabet (every byte position x 4 alterations, signature substitutions, foreign keys, boundary timestamps, emptiness combinations) x both ingress paths x every position of hand-assembled reconciliation messages, against an independent acceptance predicate",
